@@ -11,7 +11,10 @@ fn main() {
         args
     };
     for p in progs {
+        #[cfg(not(feature = "native"))]
         let mut env = Uiua::with_safe_sys();
+        #[cfg(feature = "native")]
+        let mut env = Uiua::with_native_sys();
         match env.run_str(&p) {
             Ok(_) => {
                 let out = env.take_stack();
